@@ -120,27 +120,12 @@ Theorem shipped_kernels_consumed_refuted :
 Proof. exists 3522363400, 0. vm_compute. auto. Qed.
 Print Assumptions shipped_kernels_consumed_refuted.
 
-(** known finding (mis-sized instruction): when two fields refer to the literal
-    dword it is counted twice: ByteSize 12 for an 8-byte buffer *)
-Theorem decode_size_within_buffer_refuted :
-  exists buf i n, decode false buf = Ok i n /\ N.of_nat (List.length buf) < n.
-Proof.
-  exists [255; 255; 0; 128; 17; 34; 51; 68].
-  destruct (decode false [255; 255; 0; 128; 17; 34; 51; 68]) as [i n| | |] eqn:E; try (vm_compute in E; discriminate).
-  exists i, n. split; [reflexivity|]. vm_compute in E. inversion E; subst. reflexivity.
-Qed.
-Print Assumptions decode_size_within_buffer_refuted.
-
 (** non-vacuity: a well-formed description of every format with wf defined, its
     encoding, and the model decoding it back to the instruction it denotes *)
 Example wf_satisfiable :
-  forallb (fun d => wf d && match spec_inst d with
-                            | Some i => match decode false (encode d ++ [1; 2; 3]) with
-                                        | Ok j n => (n =? dsize d) && (i_size j =? i_size i)
-                                                    && String.eqb (r_name (i_row j)) (r_name (i_row i))
-                                        | _ => false
-                                        end
-                            | None => false
+  forallb (fun d => wf d && match decode false (encode d ++ [1; 2; 3]) with
+                            | Ok j n => outcome_eqb (Ok j n) (Ok (spec_inst false d) (dsize d))
+                            | _ => false
                             end)
     [ DSop2 (row_of SOP2 0) (PS 3) (PS 101) (PLit 305419896);
       DSopk (row_of SOPK 0) (PSpecial 106) 65535;
